@@ -3,6 +3,7 @@
 // taken from the reference recognisers; builds with and without EAV_EXTRA side by side.
 #include "../harness/rc_glue.hpp"
 #include "../harness/addrcore.hpp"
+#include "../harness/litshapes.hpp"
 
 using namespace vf;
 extern "C" const vapi dflt_api, extra_api;
@@ -98,6 +99,13 @@ static void stage_forms(Run &R) {
       for (const Bytes &d : longd) { total++; if ((int) (idx++ % R.a.nworkers) != R.a.worker) continue; if (!run_one(R, "u@" + d, KD->default_mask())) return; } }
     R.space("C16 8 local-part forms x 30 domain forms x 3 masks; long IDN domains (UTF-8 spelling 120-1300 octets), IDNA-mapped spellings", total);
 }
+// the address literals enumerated for C05, as domain parts of whole addresses
+static void stage_literals(Run &R) {
+    uint64_t idx = 0, total = 0; int dm = KD->default_mask();
+    auto go = [&](const Bytes &l) -> bool { total++; if ((int) (idx++ % R.a.nworkers) != R.a.worker) return true; return run_one(R, (total % 5 == 0 ? "\"q q\"@" : "u@") + l, dm); };
+    if (!lit::shapes(R.a.thorough, go)) return;
+    R.space("C16 the enumerated address-literal texts of C05 (IPv6 shapes, octet values, longest spellings, every byte in the tag, out-of-range octets, bytes around the brackets) as domain part", total);
+}
 static void stage_random(Run &R) {
     rc_run(R, "C16 result record rules on generated addresses", 4.0, [&](Src &s) -> std::optional<Failure> {
         int mask = s.chance(1, 2) ? KD->default_mask() : (int) s.pick(2048);
@@ -113,7 +121,7 @@ static void stage_corpus(Run &R) {
 
 #ifndef VF_FUZZ
 int main(int argc, char **argv) {
-    return std_main(argc, argv, "C16", {{"bounded", stage_bounded}, {"forms", stage_forms}, {"random", stage_random}, {"corpus", stage_corpus}},
+    return std_main(argc, argv, "C16", {{"bounded", stage_bounded}, {"forms", stage_forms}, {"random", stage_random}, {"literals", stage_literals}, {"corpus", stage_corpus}},
         [](Run &R, const Case &c) { return check_one(R, c.getb("addr"), (int) c.geti("mask")); }, [] { return g_case; },
         [](Run &R) { KD = new Core(&dflt_api); KX = new Core(&extra_api); return KD->init(R.a.datadir) && KX->init(R.a.datadir) && extra_api.has_extra == 1 && dflt_api.has_extra == 0; },
         [] { delete KD; delete KX; });
